@@ -262,7 +262,14 @@ def check_sequence(data, seq, path):
         if kind == "safety" and len(ans) == 3 and isinstance(ans[2], frozenset):
             nfind = max(nfind, len(ans[2]))
         if kind in first:
-            if first[kind][1] != ans:
+            # (two *different* ways of asking for the program - plain and traced - that both
+            # refuse need not refuse with the same exception: the tracer prints every statement
+            # as it goes and may trip over an earlier one.  Same way of asking: same refusal.)
+            both_refuse_differently_asked = (
+                len(ans) == 3 and ans[1] == "raised" and len(first[kind][1]) == 3 and first[kind][1][1] == "raised"
+                and first[kind][2] != q
+            )
+            if first[kind][1] != ans and not both_refuse_differently_asked:
                 return (
                     Failure(
                         case,
@@ -273,7 +280,7 @@ def check_sequence(data, seq, path):
                     nfind,
                 )
         else:
-            first[kind] = (i, ans)
+            first[kind] = (i, ans, q)
         for c in copies:
             try:
                 out = c.dumps()
